@@ -19,6 +19,9 @@
                                    attempt e fuel root t0 (group 0 set), or, when attempt = None, with empty
                                    captures and empty stacks (group 0 unset).
      cc_demo, cc_demo2, cc_demo3   concrete instances (vm_compute), cross-checked against VM.exec_at.
+     compile_correct_exec_partial  (Proofs/CompileExec.v, via Proofs/VMUBridge.v) the same for the interpreter with
+                                   its real finite stacks and any stack limit L: whenever VM.exec_at returns a
+                                   state, it is that final Stop state (position, captures, group 0 as above).
 
    THE SET [supported] (CompileDefs.supported) = every constructor of Tree.node, with these side conditions:
      NCapture _ g u r     u = -1                      (balancing groups are outside the C01 fragment)
